@@ -376,6 +376,7 @@ func sqlRandomHistories(run *core.Run, distinct *core.DistinctSet) {
 	for t := 0; t < nt; t++ {
 		conc := abs.NewConc()
 		g := NewGen(r, fmt.Sprintf("q%d_", t))
+		g.Extreme = t%3 == 1
 		g.SQL = true
 		st.Reset()
 		inserted := map[string]*mocrelay.Event{}
